@@ -10,6 +10,8 @@ import BqVerif.Proofs.GraphEmbed
 import BqVerif.Proofs.GraphFcw
 import BqVerif.Proofs.GraphQpu
 import BqVerif.Proofs.KronOps
+import BqVerif.Proofs.KronGen
+import BqVerif.Proofs.GraphRel
 /-!
 # C20 — coupling-graph and qudit-permutation utilities match their definitions
 
@@ -29,7 +31,12 @@ Vocabulary (defined in the `Proofs` files, all elementary):
 * `ReachAvoid g q a b`  reachability by walks all of whose vertices are `≠ q`;
   `ReachLocal g remote a b`  reachability over edges that are not remote edges;
 * `BqVerif.Kron.*`   monomial-matrix model of `UnitaryMatrix`/`UnitaryBuilder` (`Model/Kron.lean`):
-  a matrix is the list sending column `c` to `(row, phase)`, entry `i^phase`.
+  a matrix is the list sending column `c` to `(row, phase)`, entry `i^phase`; `Mono.Unitary m`: rows
+  `< |m|`, pairwise distinct, phases `< 4`;
+* `validMatching`, `validMinSpan` (`Model/GraphRel.lean`): executable checkers through which the harness
+  sends every REAL result of `maximal_matching` / `get_rooted_minimum_span` (results depend on Python set
+  order, so there is no functional model); `greedyMatching`, `G.rootedSpan`: the algorithms for an
+  ARBITRARY iteration order; `Walk g a k b`: walk with `k` edges.
 -/
 namespace BqVerif.C20
 open BqVerif.Graph
@@ -99,20 +106,22 @@ theorem C20_subgraph_default (g : G) (hwf : g.WF) (loc : List Nat)
 example : ∃ (g : G) (loc : List Nat), g.WF ∧ loc ≠ [] ∧ loc.Nodup ∧ (∀ q ∈ loc, q < g.n) :=
   ⟨⟨4, [(0, 1), (1, 2), (2, 3)]⟩, [3, 1, 2], by simp [G.WF], by decide, by decide, by decide⟩
 
-/-- `get_subgraph` raises exactly in these cases: invalid location (TypeError), wrong size of the
-renumbering, wrong key set, empty location (`min()` of an empty sequence — undocumented), values
-whose minimum is not 0 or maximum not `|loc|-1`, or — because that min/max test is weaker than
-"is a permutation" — two ADJACENT vertices given the same new name (self loop in the constructor). -/
+/-- `get_subgraph` raises exactly when the location is invalid (TypeError) or empty (the constructor
+rejects `CouplingGraph([], 0)`), or the renumbering is not a bijection `loc → [0,|loc|)`: wrong size,
+wrong key set, or values that are not a permutation of `0..|loc|-1` (the check is
+`sorted(values) != list(range(len(location)))` since the fix 494efa1).  In particular no renumbering
+that merges vertices is accepted. -/
 theorem C20_subgraph_errors (g : G) (hwf : g.WF) (loc : List Nat) (ren : List (Nat × Nat)) :
-    g.subgraph loc (some ren) = none ↔
+    (g.subgraph loc (some ren) = none ↔
       (¬ (loc.Nodup ∧ ∀ q ∈ loc, q < g.n))
+      ∨ loc = []
       ∨ ren.length ≠ loc.length
       ∨ ¬ (∀ q, q ∈ ren.map (·.1) ↔ q ∈ loc)
-      ∨ loc = []
-      ∨ ¬ ((∀ v ∈ ren.map (·.2), v ≤ loc.length - 1) ∧ 0 ∈ ren.map (·.2) ∧
-            (loc.length - 1) ∈ ren.map (·.2))
-      ∨ (∃ a ∈ loc, ∃ b ∈ loc, g.hasEdge a b = true ∧ lookup ren a = lookup ren b) :=
-  subgraph_none_iff g hwf loc ren
+      ∨ ¬ (ren.map (·.2)).Perm (List.range loc.length)) ∧
+    ((g.subgraph loc (some ren)).isSome = true ↔
+      loc ≠ [] ∧ loc.Nodup ∧ (∀ q ∈ loc, q < g.n) ∧ (ren.map (·.1)).Perm loc ∧
+        (ren.map (·.2)).Perm (List.range loc.length)) :=
+  ⟨subgraph_none_iff g hwf loc ren, subgraph_isSome_iff g hwf loc ren⟩
 
 /-- With the default renumbering the only error cases are an invalid or empty location. -/
 theorem C20_subgraph_default_errors (g : G) (hwf : g.WF) (loc : List Nat) :
@@ -121,12 +130,11 @@ theorem C20_subgraph_default_errors (g : G) (hwf : g.WF) (loc : List Nat) :
 
 example : ∃ g : G, g.WF := ⟨⟨3, [(0, 1)]⟩, by simp [G.WF]⟩
 
-/-- Witness (replayed on the real code by the harness, known finding
-`subgraph-accepts-non-injective-renumbering`): the documented requirement "the renumbering must be a
-permutation" is not enforced — a non-injective renumbering is accepted and vertices are merged. -/
-theorem C20_subgraph_weak_check_witness :
-    (G.mk 3 [(0, 1)]).subgraph [0, 1, 2] (some [(0, 0), (1, 2), (2, 2)]) = some ⟨3, [(0, 2)]⟩ :=
-  subgraph_weak_check_witness
+/-- The reproducer of the former finding (non-injective renumbering accepted, fixed by 494efa1) is
+rejected. -/
+theorem C20_subgraph_rejects_non_injective :
+    (G.mk 3 [(0, 1)]).subgraph [0, 1, 2] (some [(0, 0), (1, 2), (2, 2)]) = none :=
+  subgraph_rejects_non_injective
 
 /-! ## 3. topology constructors (incl. degenerate sizes) -/
 
@@ -269,9 +277,8 @@ example : ∃ (g : G) (s : Nat) (ps : List (List Nat)), g.WF ∧ s < g.n ∧ g.s
 
 /-- The result (each location as its sorted vertex list, as a duplicate-free collection) consists of
 exactly the `k`-subsets of the vertices that induce a connected subgraph; the call raises iff
-`k = 0` or `k > n`.  (The real code can return one vertex set several times in different orders when
-vertices ≥ 8 occur — known finding `subsize-duplicate-vertex-sets`; the model identifies a location
-with its vertex set.) -/
+`k = 0` or `k > n`.  (Since the fix b592992 the real code builds each location from the sorted vertex
+set, as the model does, so it also lists every vertex set once; the harness checks that.) -/
 theorem C20_subgraphs_of_size (g : G) (k : Nat) :
     (g.subgraphsOfSize k = none ↔ k = 0 ∨ g.n < k) ∧
     ∀ res, g.subgraphsOfSize k = some res →
@@ -324,26 +331,41 @@ theorem C20_qpu_map (g : G) (hwf : g.WF) (remote : List (Nat × Nat)) :
 example : ∃ (g : G) (remote : List (Nat × Nat)), g.WF ∧ g.qpuToQudit remote = [[0, 2], [1]] :=
   ⟨⟨3, [(0, 2), (1, 2)]⟩, [(1, 2)], by simp [G.WF], by decide⟩
 
-/-- Witnesses of the known findings `qudit-to-qpu-map-not-indexed-by-qudit` and
-`qpu-connectivity-uses-misindexed-qudit-map` (the model follows the code as written; `…Spec` is the
-documented meaning): `get_qudit_to_qpu_map` is not indexed by qudit, and `get_qpu_connectivity`
-inherits the error. -/
-theorem C20_qpu_defect_witness :
-    ((G.mk 3 [(0, 2), (1, 2)]).quditToQpuImpl [(1, 2)] = [0, 0, 1] ∧
-     (G.mk 3 [(0, 2), (1, 2)]).quditToQpuSpec [(1, 2)] = [0, 1, 0]) ∧
-    (G.mk 4 [(0, 3), (1, 3), (2, 3)]).qpuConnImpl [(1, 3), (2, 3)] ≠
-      (G.mk 4 [(0, 3), (1, 3), (2, 3)]).qpuConnSpec [(1, 3), (2, 3)] :=
-  ⟨quditToQpu_defect_witness, qpuConn_defect_witness⟩
+/-- `get_qudit_to_qpu_map()` (since the fix 2c665e0) never raises and is the documented map for ALL
+graphs: entry `q` is the index of the unique QPU that holds `q`; two qudits get the same index iff
+they are connected over non-remote edges. -/
+theorem C20_qudit_to_qpu_map (g : G) (hwf : g.WF) (remote : List (Nat × Nat)) :
+    g.quditToQpuImpl? remote = some (g.quditToQpuSpec remote) ∧
+    (∀ q, q < g.n →
+      (g.quditToQpuImpl remote).length = g.n ∧
+      (g.quditToQpuImpl remote).getD q 0 < (g.qpuToQudit remote).length ∧
+      q ∈ (g.qpuToQudit remote).getD ((g.quditToQpuImpl remote).getD q 0) [] ∧
+      ∀ i, q ∈ (g.qpuToQudit remote).getD i [] → i = (g.quditToQpuImpl remote).getD q 0) ∧
+    (∀ a b, a < g.n → b < g.n → (g.qpuOf remote a = g.qpuOf remote b ↔ ReachLocal g remote a b)) :=
+  ⟨quditToQpuImpl?_eq_spec g hwf remote, fun q hq => quditToQpuImpl_get g hwf remote q hq,
+   fun a b ha hb => qpuOf_eq_iff g hwf remote a b ha hb⟩
 
-/-- … while the code is right whenever the QPUs, concatenated, are `0, 1, …, n-1`. -/
-theorem C20_qpu_map_contiguous (g : G) (hwf : g.WF) (remote : List (Nat × Nat))
-    (hc : (g.qpuToQudit remote).flatten = List.range g.n) :
-    g.quditToQpuImpl remote = g.quditToQpuSpec remote :=
-  quditToQpuImpl_eq_spec_of_contiguous g hwf remote hc
+/-- `get_qpu_connectivity()`: one duplicate-free adjacency list per QPU; QPU `b` is listed for QPU
+`a` iff some remote edge joins a qudit of `a` with a qudit of `b` (remote edges are edges of the
+graph, as the constructor enforces). -/
+theorem C20_qpu_connectivity (g : G) (hwf : g.WF) (remote : List (Nat × Nat))
+    (hrem : ∀ e ∈ remote, g.hasEdge e.1 e.2 = true) :
+    (g.qpuConnImpl remote).length = (g.qpuToQudit remote).length ∧
+    (∀ a, ((g.qpuConnImpl remote).getD a []).Nodup) ∧
+    ∀ a b, b ∈ (g.qpuConnImpl remote).getD a [] ↔
+      ∃ e ∈ remote, (g.qpuOf remote e.1 = a ∧ g.qpuOf remote e.2 = b) ∨
+                    (g.qpuOf remote e.1 = b ∧ g.qpuOf remote e.2 = a) :=
+  qpuConnImpl_spec g hwf remote hrem
 
-example : ∃ (g : G) (remote : List (Nat × Nat)), g.WF ∧
-    (g.qpuToQudit remote).flatten = List.range g.n ∧ remote ≠ [] :=
-  ⟨⟨3, [(0, 1), (1, 2)]⟩, [(1, 2)], by simp [G.WF], by decide, by decide⟩
+example : ∃ (g : G) (remote : List (Nat × Nat)), g.WF ∧ remote ≠ [] ∧
+    (∀ e ∈ remote, g.hasEdge e.1 e.2 = true) ∧ g.quditToQpuImpl remote = [0, 1, 2, 0] :=
+  ⟨⟨4, [(0, 3), (1, 3), (2, 3)]⟩, [(1, 3), (2, 3)], by simp [G.WF], by decide, by decide, by decide⟩
+
+/-- The reproducers of the two former findings (fixed by 2c665e0) give the documented values. -/
+theorem C20_qpu_fixed_examples :
+    (G.mk 3 [(0, 2), (1, 2)]).quditToQpuImpl [(1, 2)] = [0, 1, 0] ∧
+    (G.mk 4 [(0, 3), (1, 3), (2, 3)]).qpuConnImpl [(1, 3), (2, 3)] = [[1, 2], [0], [0]] :=
+  quditToQpu_fixed_examples
 
 /-! ## Kronecker clause: index arithmetic of otimes / products / builder applies -/
 
@@ -375,5 +397,116 @@ theorem C20_kron_swap_builder (n r : Nat) (loc : List Nat) (hnd : loc.Nodup) (hl
   BqVerif.Kron.build_swapLoop_spec n r loc hnd hlt
 
 example : ∃ (n r a b col : Nat), a < n ∧ b < n ∧ col < r ^ n := ⟨3, 2, 0, 2, 5, by decide⟩
+
+/-- General `embed` (what `apply_left/apply_right` multiply with), mixed radixes, any gate: for a valid
+location, column `col` is sent to the row whose digits at `loc` are the digits of the gate's row for the
+gate column read off `col` at `loc`, all other digits unchanged; the phase is the gate's. -/
+theorem C20_kron_embed (m : BqVerif.Kron.Mono) (loc radixes : List Nat) (hloc : loc.Nodup)
+    (hlt : ∀ q ∈ loc, q < radixes.length)
+    (hm : m.length = BqVerif.Kron.dim (loc.map (radixes.getD · 1)))
+    (hrow : ∀ e ∈ m, e.1 < m.length)
+    (col : Nat) (hcol : col < BqVerif.Kron.dim radixes) :
+    let subR := loc.map (radixes.getD · 1)
+    let ds := BqVerif.Kron.digits radixes col
+    let sc := BqVerif.Kron.undigits subR (loc.map (ds.getD · 0))
+    let e := m.at sc
+    let out := (BqVerif.Kron.embed m loc radixes).at col
+    sc < m.length ∧ out.2 = e.2 ∧ out.1 < BqVerif.Kron.dim radixes ∧
+    (∀ k, k < loc.length →
+      (BqVerif.Kron.digits radixes out.1).getD (loc.getD k 0) 0 = (BqVerif.Kron.digits subR e.1).getD k 0) ∧
+    (∀ q, q < radixes.length → q ∉ loc → (BqVerif.Kron.digits radixes out.1).getD q 0 = ds.getD q 0) ∧
+    BqVerif.Kron.undigits subR (loc.map ((BqVerif.Kron.digits radixes out.1).getD · 0)) = e.1 :=
+  BqVerif.Kron.embed_at m loc radixes hloc hlt hm hrow col hcol
+
+example : ∃ (m : BqVerif.Kron.Mono) (loc radixes : List Nat) (col : Nat), loc.Nodup ∧
+    (∀ q ∈ loc, q < radixes.length) ∧ m.length = BqVerif.Kron.dim (loc.map (radixes.getD · 1)) ∧
+    (∀ e ∈ m, e.1 < m.length) ∧ col < BqVerif.Kron.dim radixes :=
+  ⟨[(1, 0), (0, 1), (2, 3), (3, 0), (5, 2), (4, 0)], [2, 0], [2, 2, 3], 7,
+   by decide, by decide, by decide, by decide, by decide⟩
+
+/-- Embedding is multiplicative and commutes with the dagger; the dagger is the two-sided inverse;
+`ipower` is a homomorphism ℤ → matrices (so `ipower m (-k)` inverts `ipower m k`); a builder whose
+applies pass the argument checks always returns a monomial unitary of the full dimension. -/
+theorem C20_kron_algebra (m : BqVerif.Kron.Mono) (hm : m.Unitary) :
+    (BqVerif.Kron.mul (BqVerif.Kron.dagger m) m = BqVerif.Kron.identity m.length ∧
+     BqVerif.Kron.mul m (BqVerif.Kron.dagger m) = BqVerif.Kron.identity m.length) ∧
+    (∀ a b : Int, BqVerif.Kron.ipower m (a + b) =
+        BqVerif.Kron.mul (BqVerif.Kron.ipower m a) (BqVerif.Kron.ipower m b)) ∧
+    (∀ k : Int, BqVerif.Kron.mul (BqVerif.Kron.ipower m (-k)) (BqVerif.Kron.ipower m k) =
+        BqVerif.Kron.identity m.length) ∧
+    (∀ (a : BqVerif.Kron.Mono) (loc radixes : List Nat), loc.Nodup → (∀ q ∈ loc, q < radixes.length) →
+        m.length = BqVerif.Kron.dim (loc.map (radixes.getD · 1)) →
+        BqVerif.Kron.embed (BqVerif.Kron.mul a m) loc radixes =
+          BqVerif.Kron.mul (BqVerif.Kron.embed a loc radixes) (BqVerif.Kron.embed m loc radixes) ∧
+        BqVerif.Kron.embed (BqVerif.Kron.dagger m) loc radixes =
+          BqVerif.Kron.dagger (BqVerif.Kron.embed m loc radixes) ∧
+        (BqVerif.Kron.embed m loc radixes).Unitary) :=
+  ⟨⟨BqVerif.Kron.mul_dagger_left m hm, BqVerif.Kron.mul_dagger_right m hm⟩,
+   fun a b => BqVerif.Kron.ipower_add m hm a b,
+   fun k => BqVerif.Kron.ipower_neg_inverse m hm k,
+   fun a loc radixes hloc hlt hml =>
+    ⟨BqVerif.Kron.embed_mul a m loc radixes hloc hlt hml (fun e he => (hm.1 e he).1),
+     BqVerif.Kron.embed_dagger m loc radixes hm hloc hlt hml,
+     BqVerif.Kron.embed_unitary m loc radixes hm hloc hlt hml⟩⟩
+
+theorem C20_kron_build_unitary (radixes : List Nat) (ops : List BqVerif.Kron.Op)
+    (hops : ∀ o ∈ ops, o.ok radixes = true ∧ o.m.Unitary) :
+    ∃ u, BqVerif.Kron.build radixes ops = some u ∧ u.Unitary ∧ u.length = BqVerif.Kron.dim radixes :=
+  BqVerif.Kron.build_unitary radixes ops hops
+
+example : ∃ m : BqVerif.Kron.Mono, m.Unitary ∧ m.length = 3 :=
+  ⟨[(1, 0), (2, 3), (0, 1)], by simp [BqVerif.Kron.Mono.Unitary], rfl⟩
+
+/-! ## maximal_matching, get_rooted_minimum_span (relational: checkers + any-order algorithms) -/
+
+/-- Meaning of the checker every real `maximal_matching` result is sent through: the result consists
+of stored edges of `g`, none ignored (in either orientation), pairwise vertex disjoint, and every
+other admissible edge touches it (maximal).  And the greedy loop of the code returns an accepted
+result for EVERY enumeration order of the candidate edges (set order, `shuffle`) and every order of the
+returned list. -/
+theorem C20_maximal_matching (g : G) (ignored : List (Nat × Nat)) :
+    (∀ res, validMatching g ignored res = true ↔
+      (∀ e ∈ res, e ∈ g.edges ∧ ignoredEdge ignored e = false) ∧
+      (res.Nodup ∧ ∀ e ∈ res, e.1 ≠ e.2) ∧
+      (∀ e ∈ res, ∀ f ∈ res, e ≠ f → e.1 ≠ f.1 ∧ e.1 ≠ f.2 ∧ e.2 ≠ f.1 ∧ e.2 ≠ f.2) ∧
+      (∀ e ∈ g.edges, ignoredEdge ignored e = false → e.1 ≠ e.2 →
+          ∃ f ∈ res, f.1 = e.1 ∨ f.2 = e.1 ∨ f.1 = e.2 ∨ f.2 = e.2)) ∧
+    (∀ el res, el.Perm (candidateEdges g ignored) → res.Perm (greedyMatching el) →
+      validMatching g ignored res = true) :=
+  ⟨fun res => validMatching_iff g ignored res,
+   fun el res h1 h2 => greedyMatching_valid_perm g ignored el res h1 h2⟩
+
+example : validMatching ⟨4, [(0, 1), (1, 2), (2, 3)]⟩ [(2, 1)] [(0, 1), (2, 3)] = true ∧
+    validMatching ⟨4, [(0, 1), (1, 2), (2, 3)]⟩ [] [(0, 1)] = false := by decide
+
+/-- Meaning of the checker every real `get_rooted_minimum_span` result (connected graphs) is sent
+through: `n-1` pairs (parent, child), each an edge, parent reached before, every vertex reached exactly
+once — so the pairs alone connect the root to every vertex — and the tree is a BFS tree: the depth of
+each vertex in the tree is its hop distance from the root in `g`.  (The DFS pre-order of the listing is
+not checked.)  The two loops of the code, run with ARBITRARY iteration orders of the neighbour sets, return
+an accepted result on every connected graph. -/
+theorem C20_rooted_span (g : G) (root : Nat) :
+    (∀ res, validMinSpan g root res = true →
+      (∀ v, v < g.n → v = root ∨ ∃ pc ∈ res, pc.2 = v) ∧
+      (∀ v, v < g.n → Reach ⟨g.n, res.map norm⟩ root v) ∧
+      (res.map (·.2)).Nodup ∧ root ∉ res.map (·.2) ∧ res.length + 1 = g.n ∧
+      (∀ a b, (G.mk g.n (res.map norm)).hasEdge a b = true → g.hasEdge a b = true) ∧
+      ∀ v, v < g.n →
+        Walk ⟨g.n, res.map norm⟩ root (lookup (spanDepths root res) v) v ∧
+        ∀ k, Walk g root k v → lookup (spanDepths root res) v ≤ k) ∧
+    (g.WF → root < g.n → (∀ v, v < g.n → Reach g root v) →
+      ∀ ord1 ord2 : Nat → List Nat → List Nat, (∀ q l, (ord1 q l).Perm l) → (∀ q l, (ord2 q l).Perm l) →
+        ∃ res, g.rootedSpan ord1 ord2 root = some res ∧ validMinSpan g root res = true) := by
+  refine ⟨fun res h => ?_, fun hwf hroot hconn ord1 ord2 h1 h2 =>
+    rootedSpan_minValid g hwf ord1 ord2 h1 h2 root hroot hconn⟩
+  have hv := ((validMinSpan_iff g root res).1 h).1
+  have hs := validSpan_spanning g root res hv
+  refine ⟨hs.1, hs.2.1, hs.2.2.2.1, hs.2.2.2.2, ((validSpan_iff g root res).1 hv).1,
+    fun a b hab => validSpan_subgraph g root res hv a b hab, fun v hvn => ?_⟩
+  have hd := validMinSpan_dist g root res h v hvn
+  exact ⟨hd.1, hd.2.2⟩
+
+example : validMinSpan ⟨4, [(0, 1), (1, 2), (2, 3), (0, 3)]⟩ 1 [(1, 2), (1, 0), (0, 3)] = true ∧
+    validMinSpan ⟨4, [(0, 1), (1, 2), (2, 3), (0, 3)]⟩ 1 [(1, 2), (2, 3), (3, 0)] = false := by decide
 
 end BqVerif.C20
